@@ -646,6 +646,8 @@ def to_term(e, ctx):
         if len(e["a"]) == 0 and sort_of_type(e["ty"]) in ("u", "s", "b"):
             return c(0)
         return unk(e)
+    if k == "initlist" and len(e["a"]) == 0:
+        return c(0)
     if k == "initlist" and len(e["a"]) == 1:
         return to_term(e["a"][0], ctx)
     if k == "un":
